@@ -179,7 +179,7 @@ def main(args):
     rep = common.Report('C17', tier)
     rep.assumptions = ASSUMPTIONS
     rep.bounds = {'scope': [[m, p, lq if tier == 'quick' else lt] for m, p, lq, lt, t in SCOPE]}
-    deadline = time.time() + (330 if tier == 'quick' else common.THOROUGH_S)
+    deadline = time.time() + (common.QUICK_S if tier == 'quick' else common.THOROUGH_S)
     lem = {'proved': 0, 'failed': 0, 'cached': 0, 'instances': 0, 'time_s': 0.0, 'unknown': 0}
 
     def progress(done, total, res):
